@@ -87,4 +87,32 @@ def run(ctx):
             t.raw(e)
         traces.append(t.to_json())
     ctx.cov["full_size_formula_cases"] = len(evs)
+    # the element API over ALL curve points (ElementOfUnknownGroup: torsion and mixed-order points, slow ladder):
+    # every pair and small multiples on toy curves, the spec-computed points on the real curve
+    def enc_of(basic, P):
+        return hx(basic.encodepoint(P))
+    for g in (["ed37", "ed53"] if thorough else ["ed37"]):
+        basic = uni.basic[g]
+        allp = ["zero" if P == (0, 1) else enc_of(basic, P) for P in pure.toy_curve_points(basic)]
+        for i, a in enumerate(allp):
+            t = Trace("%s/unknown-group/%d" % (g, i), uni)
+            for b in allp:
+                if thorough or (i + allp.index(b)) % 3 == ctx.seed % 3:
+                    t.raw(pure.ev_u_op(uni, g, "add", a, b))
+            for n in [0, 1, 2, 3, 4, 7, 8, basic.L, 8 * basic.L, 8 * basic.L + 1]:
+                t.raw(pure.ev_u_op(uni, g, "mul", a, n=n))
+            if a != "zero":
+                t.raw(pure.ev_u_dec(uni, g, unhx(a)))
+            traces.append(t.to_json())
+    encs = ["zero" if xy == (0, 1) else hx(basic_.encodepoint(xy)) for basic_ in [uni.basic["Ed25519"]] for n_, xy in P]
+    t = Trace("Ed25519/unknown-group", uni)
+    for i, a in enumerate(encs[:18 if thorough else 12]):
+        t.raw(pure.ev_u_op(uni, "Ed25519", "add", a, encs[(i * 5 + 1) % len(encs)]))
+        t.raw(pure.ev_u_op(uni, "Ed25519", "mul", a, n=[8, L, 2, 8 * L][i % 4]))
+        if i % 2 == 0 and a != "zero":
+            t.raw(pure.ev_u_dec(uni, "Ed25519", unhx(a)))
+        if len(t.events) >= 9:
+            traces.append(t.to_json())
+            t = Trace("Ed25519/unknown-group/%d" % i, uni)
+    traces.append(t.to_json())
     ctx.validate(traces, uni, what="Edwards formulas")
